@@ -697,6 +697,22 @@ impl<S: KSub> System for KSys<S> {
         }
         v
     }
+    fn query_ops(&self, _o: &KObj<S>) -> Vec<u32> {
+        let mut v = vec![];
+        for p in 0..=self.probes() {
+            v.push(op(K_GET, p, 0));
+            v.push(op(K_FLE, p, 0));
+            v.push(op(K_FL, p, 0));
+            v.push(op(K_FLEBY, p, 0));
+        }
+        v
+    }
+    fn update_ops(&self, o: &KObj<S>) -> Vec<u32> {
+        let mut v = vec![];
+        self.enabled(o, &mut v);
+        v.retain(|x| matches!(x >> 16, K_INS | K_TICK | K_CLEAR | K_RESTART));
+        v
+    }
     fn step_allowed(&self, o: &KObj<S>, op: u32) -> bool {
         let mut v = vec![];
         self.enabled(o, &mut v);
